@@ -273,6 +273,10 @@ func vfRunAPIProgram(t *testing.T, spec *vfSpec, res *vfRes) {
 				sim.apiRet(ev, 0, err)
 				done <- err
 			}()
+			// the call under test is a write *after* Shutdown has begun: wait until the state says so
+			for i := 0; i < 1000 && a.getState() == established; i++ {
+				time.Sleep(10 * time.Microsecond)
+			}
 			time.Sleep(time.Duration(r.Intn(3)) * time.Millisecond)
 			_ = p.write(200, true, "shutting-down")
 			p.readAll(int(pos), 2*time.Minute)
